@@ -42,6 +42,40 @@ def rule_rel(prog):
                          "pressed forever")
     if n_sites < 1:
         res.viol("queue/census", "keyberon/src/chord.rs", "no wholesale removal from ChordsV2.queue found (expected the ignore-window drain)")
+    # a released key is taken off *every* active chord it participates in (chords may share keys): the bookkeeping
+    # `remaining_keys_to_release.retain(..)` runs inside a for_each / for loop over the active chords, not after a find()
+    n_rel = 0
+    for f in prog.fns.values():
+        if not f.norm.startswith(CH + "ChordsV2::drain_releases"):
+            continue
+        for bi, t in f.calls():
+            if (callee_name(t) or "").split("::")[-1] != "retain":
+                continue
+            fl = receiver_fields(f, t)
+            if not (fl and fl[-1] == "remaining_keys_to_release"):
+                continue
+            n_rel += 1
+            ok = False
+            # (a) f is the body closure of Iterator::for_each over the active chords
+            par = prog.fn_opt(f.iparent) if f.iparent else None
+            if par is not None:
+                for b2, t2 in par.calls():
+                    if (callee_name(t2) or "").split("::")[-1] in ("for_each",) and len(t2["args"]) > 1:
+                        c = closure_arg(prog, par, t2["args"][1])
+                        if c is not None and c.norm == f.norm:
+                            ok = True
+            # (b) or the call sits in a for loop: it can reach a `next()` call that can reach it again
+            for b2, t2 in f.calls():
+                if (callee_name(t2) or "").endswith("::next") and bi in f.reach_from(b2) and b2 in f.reach_from(bi):
+                    ok = True
+            res.inst("release-credited-to-every-chord#%d" % n_rel, where="%s:%s" % (f.file, t.get("ln")), ok=ok)
+            res.oblige(ok)
+            if not ok:
+                res.viol("release-credited-to-every-chord", "%s:%s" % (f.file, t.get("ln")),
+                         "a key release is credited to one active chord only (no for_each / loop over the active chords around the "
+                         "bookkeeping): a second active chord sharing the key never becomes releasable and its output stays down")
+    if n_rel == 0:
+        res.viol("release-bookkeeping/anchor", "keyberon/src/chord.rs", "drain_releases no longer updates remaining_keys_to_release")
     # who removes from active_chords
     removers = set()
     for f in prog.fns.values():
